@@ -216,9 +216,55 @@ func runHostile(o *opts) {
 			rmrf(p.Base)
 		}
 	}
+	// (c) hostile index lines: a stage file outside the project must never be loaded, let alone
+	// written back by commit
+	for _, hl := range []struct {
+		line   string
+		reject bool
+	}{
+		{"../neighbour/h.yaml", true}, {"@abs", true}, {"sub/../../neighbour/h.yaml", true}, {"../proj/../neighbour/h.yaml", true},
+		{"sub/../h_inside.yaml", false}, {"..h.yaml", false},
+	} {
+		for _, c := range []Cmd{{Kind: "commit"}, {Kind: "checkout"}, {Kind: "status"}, {Kind: "run"}, {Kind: "graph"}} {
+			if o.tier == "quick" && r.chance(1, 3) {
+				continue
+			}
+			p, skip := newProj()
+			must(os.MkdirAll(filepath.Join(p.Root, "sub"), 0o755))
+			must(os.WriteFile(filepath.Join(p.Root, "f.txt"), []byte("payload"), 0o644))
+			must(os.WriteFile(filepath.Join(p.Root, "extra.txt"), []byte("extra"), 0o644))
+			p.writeStage("s.yaml", &StageRec{Out: []Art{{Path: "f.txt"}}})
+			if res := p.dud("", "stage", "add", "s.yaml"); res.Exit != 0 {
+				must(fmt.Errorf("hostile setup: %s", res.Stderr))
+			}
+			line := hl.line
+			if line == "@abs" {
+				line = filepath.Join(p.Base, "outer", "neighbour", "h.yaml")
+			}
+			// the stage file the line names (hand-written: a rewrite shows)
+			target := line
+			if !filepath.IsAbs(target) {
+				target = filepath.Join(p.Root, line)
+			}
+			must(os.WriteFile(target, []byte("# not dud's to rewrite\noutputs:\n  extra.txt: {}\n"), 0o644))
+			idx := filepath.Join(p.Root, ".dud", "index")
+			cur, err := os.ReadFile(idx)
+			must(err)
+			must(os.WriteFile(idx, append(cur, []byte(line+"\n")...), 0o644))
+			p.StageFs = append(p.StageFs, line)
+			sp := want(20, 13)
+			if hl.reject {
+				sp = append(sp, want(5)...)
+			}
+			run(p, skip, c, sp, c.Kind+" with a hostile index line", map[string]interface{}{"index_line": hl.line})
+			s.count("index:" + c.Kind)
+			distinct["ix"+hl.line+c.Kind] = true
+			rmrf(p.Base)
+		}
+	}
 	s.Cases = len(all)
 	s.Nontrivial = len(distinct)
-	s.Rule = "hostile stage files ('..' at every position, absolute paths, a/../../b, ..foo, as output / input / working dir) through `dud stage add` (+ run/commit/checkout when accepted); hostile directory manifests (entry ../x, ../../x, /abs, a/b, '.', '..', empty, path != key, NUL) x {checkout, checkout --copy, commit, status, pull}; a sentinel tree around the project is hashed before/after; every case is non-trivial; distinct by (path, position / command)"
+	s.Rule = "hostile index lines (../x, absolute, a/../../x, root-name/../x; accepted: a/../x inside, ..name) x {commit, checkout, status, run, graph}; hostile stage files ('..' at every position, absolute paths, a/../../b, ..foo, as output / input / working dir) through `dud stage add` (+ run/commit/checkout when accepted); hostile directory manifests (entry ../x, ../../x, /abs, a/b, '.', '..', empty, path != key, NUL) x {checkout, checkout --copy, commit, status, pull}; a sentinel tree around the project is hashed before/after; every case is non-trivial; distinct by (path, position / command)"
 	if len(all) > 0 {
 		s.Samples = append(s.Samples, all[0].Info, all[len(all)/2].Info)
 	}
